@@ -284,7 +284,9 @@ func (m *Model) resolveAnchors() error {
 		}
 		return nil
 	}
-	a.TxnCore = one("TxnRunner", m.fnsCalling(func(c *ssa.CallCommon) bool { return isMethodCall(c, "database/sql", "DB", "Begin") || isMethodCall(c, "database/sql", "DB", "BeginTx") }))
+	a.TxnCore = one("TxnRunner", m.fnsCalling(func(c *ssa.CallCommon) bool {
+		return isMethodCall(c, "database/sql", "DB", "Begin") || isMethodCall(c, "database/sql", "DB", "BeginTx")
+	}))
 	a.TxnRunner = a.TxnCore
 	if a.TxnCore != nil {
 		// walk outwards while the only caller merely passes its own func parameter along
